@@ -11,6 +11,9 @@ package main
 //	NAME=kind     env.DefineType(NAME, <value of that kind>); NAME may be mod.NAME,
 //	              then the type is defined in the host-made module mod
 //	f32           host values of type float32 / []float32 / map[string]float32
+//	tag=kind harr=n hkey=Name   (round 6, c14_r6.go) host data used as map keys: tag is a value
+//	              of that kind, harr a Go array [n]interface{} and hkey a Go struct
+//	              {Name interface{}; N int64} that hold it
 //	meet          (always bound in a prepared environment) meet() is a no-op in a
 //	              solo run; in the concurrent phase the first meet() of a run waits
 //	              until every other run of the case has called it or has ended —
@@ -64,6 +67,8 @@ func c14PrepEnv(e *env.Env, spec string) {
 	mods := map[string]*env.Env{}
 	for _, tok := range strings.Fields(spec) {
 		switch {
+		case c14R6PrepToken(e, tok):
+			// round 6 (c14_r6.go): host data used as map keys (tag=, harr=, hkey=)
 		case tok == "f32":
 			e.Define("hf", float32(1.1))
 			e.Define("hf2", float32(0.1))
